@@ -29,7 +29,7 @@ RULE = ("cases: (mean, covariance, y, S) and (LGANM, interventions, variable).  
 ASSUMPTIONS = ["C_SS non-singular with 1e3*eps*cond(C_SS) <= 1e-4, else the case is counted too_ill_conditioned",
                "LGANM link judged only for noise variances >= 0.05 after intervention and cond(I-W^T) small enough"]
 EXHAUSTIVE = {"quick": False, "thorough": False}
-SOFT_LIMIT = {"quick": 240, "thorough": 1500}
+SOFT_LIMIT = {"quick": 1200, "thorough": 5400}      # generous wall-clock watchdogs (a loaded machine must not cut a workload short); normal run times are in the evidence
 REQUIRED_FUNCS = ["sempler/normal_distribution.py:NormalDistribution.regress", "sempler/normal_distribution.py:NormalDistribution.mse",
                   "sempler/lganm.py:LGANM.sample"]
 REQUIRED_COUNTERS = {"quick": {"judged:regress": 10000, "judged:mse": 10000, "S:empty": 300, "S:contains-y": 300, "S:int": 200, "S:range": 200,
